@@ -371,6 +371,40 @@ theorem C01_wire_ttl_in_range (r : ERecord) (now : Ms) (h : NowNotBeforeCreated 
     wireTtl r now < 4294967296 :=
   Nat.lt_of_le_of_lt (C01_remaining_ttl_le r now h) httl
 
+/-- a record as the property's quantifier describes it: the **TTL** is 0..2³²−1 and the time it is written at is not
+before its creation (`WFRec` asks instead that the TTL *as transmitted* fits 32 bits) -/
+def WFRecQ (r : ERecord) (now : Ms) : Prop :=
+  WFName r.name ∧ r.rtype < 65536 ∧ r.rclass < 32768 ∧ r.ttl < 4294967296 ∧ NowNotBeforeCreated r now ∧ WFRData r.rtype r.rdata
+
+instance (r : ERecord) (now : Ms) : Decidable (WFRecQ r now) := by unfold WFRecQ; infer_instance
+
+theorem WFRecQ.wf {r : ERecord} {now : Ms} (h : WFRecQ r now) : WFRec r now :=
+  ⟨h.1, h.2.1, h.2.2.1, C01_wire_ttl_in_range r now h.2.2.2.2.1 h.2.2.2.1, h.2.2.2.2.2⟩
+
+/-- the message as the quantifier describes it (TTLs, not transmitted TTLs; 16-bit flags and id) -/
+structure WFMsgQ (m : Msg) : Prop where
+  flags : m.flags < 65536
+  id : m.id < 65536
+  questions : ∀ q ∈ m.questions, WFQuestion q
+  answers : ∀ x ∈ m.answers, WFRecQ x.1 x.2
+  authorities : ∀ r ∈ m.authorities, WFRecQ r 0
+  additionals : ∀ r ∈ m.additionals, WFRecQ r 0
+
+theorem WFMsgQ.wf {m : Msg} (h : WFMsgQ m) : WFMsg m :=
+  ⟨h.questions, fun x hx => (h.answers x hx).wf, fun r hr => (h.authorities r hr).wf, fun r hr => (h.additionals r hr).wf⟩
+
+/-- **Totality and round trip with the quantifier's own hypotheses** (`C01_roundtrip_total` composed with the
+remaining-TTL reading): TTL 0..2³²−1, written with its own TTL or at a time not before its creation — no hypothesis on
+the TTL as transmitted. -/
+theorem C01_roundtrip_total_q (m : Msg) (hq : WFMsgQ m) (hfit : FitAll m) (ht : TxtOK m) :
+    ∃ (pks : List Bytes) (msgs : List WMsg), packets m = .ok pks ∧ pks.map Strict.decode = msgs.map some ∧
+      msgs.flatMap (·.questions) = onWireQuestions m ∧ msgs.flatMap (·.answers) = onWireAnswers m ∧
+      msgs.flatMap (·.authorities) = onWireAuthorities m ∧ msgs.flatMap (·.additionals) = onWireAdditionals m :=
+  C01_roundtrip_total m hq.wf hfit hq.flags hq.id ht
+
+/-- non-vacuity: an answer written 5 s after its creation with TTL 2³²−1 (remaining TTL 2³²−6) -/
+example : WFRecQ ⟨[[97], [108]], 1, 1, true, 4294967295, 1000000, .addr [1, 2, 3, 4]⟩ 1005000 := by decide +kernel
+
 /-- outside that reading: TTL 2³²−1, created at 1 000 000 ms, written with `now = 1` → `struct.error` (as the library) -/
 example : (match encRecord true 12 [] ⟨[[97], [108]], 1, 1, true, 4294967295, 1000000, .addr [1, 2, 3, 4]⟩ 1 with
     | .error e => e.name | .ok _ => "ok") = "struct.error" := by
